@@ -21,7 +21,6 @@ import (
 	"sort"
 	"strings"
 
-	"github.com/openconfig/goyang/pkg/yang"
 	gpb "github.com/openconfig/gnmi/proto/gnmi"
 	"github.com/openconfig/ygot/ygot"
 )
@@ -670,11 +669,21 @@ func (w *walker) list(ps reflect.Value, gf goField, methods []reflect.Method, c 
 }
 
 func showArg(v reflect.Value) string {
-	x := v.Interface()
-	if v.Kind() == reflect.Ptr && !v.IsNil() && v.Elem().Kind() == reflect.Struct {
-		return fmt.Sprintf("&%#v", v.Elem().Interface())
+	switch v.Kind() {
+	case reflect.Ptr:
+		if !v.IsNil() && v.Elem().Kind() == reflect.Struct {
+			return fmt.Sprintf("&%#v", v.Elem().Interface())
+		}
+	case reflect.Interface:
+		if !v.IsNil() {
+			return showArg(v.Elem())
+		}
+	case reflect.Int8, reflect.Int16, reflect.Int32, reflect.Int64, reflect.Int:
+		return fmt.Sprintf("%s(%d)", v.Type().Name(), v.Int())
+	case reflect.Uint8, reflect.Uint16, reflect.Uint32, reflect.Uint64, reflect.Uint:
+		return fmt.Sprintf("%s(%d)", v.Type().Name(), v.Uint())
 	}
-	return fmt.Sprintf("%#v", x)
+	return fmt.Sprintf("%#v", v.Interface())
 }
 
 // check resolves ps and compares with c.want (for a leaf: with any of the path-tag alternatives)
@@ -837,4 +846,3 @@ func (w *walker) check(ps reflect.Value, c ctx, leaf bool, leafAlts [][]string) 
 	}
 }
 
-var _ = yang.CamelCase
